@@ -11,6 +11,7 @@ CONSTANTS
   Files <- MCFiles
   Msgs <- MCMsgs
   Texts <- MCTexts
+  Opts <- %(opts)sOpts
   NameAlpha = {%(na)s}
   NameLen = %(nl)d
   FileAlpha = {%(fa)s}
@@ -34,6 +35,7 @@ CONSTANTS
   Files <- GFiles
   Msgs <- GMsgs
   Texts <- GTexts
+  Opts <- %(opts)sOpts
   NameAlpha = {%(na)s}
   NameLen = %(nl)d
   FileAlpha = {%(fa)s}
@@ -56,6 +58,7 @@ CONSTANTS
   Files = {}
   Msgs = {}
   Texts = {}
+  Opts = {}
   LineNos = {}
   MaxGroups = 0
   MaxTests = 0
@@ -104,7 +107,7 @@ def rval(rng, hi, forbid=(122,)):
 
 
 def random_exec(rng, max_groups, max_tests):
-    ex = [["start", "", "", "", 0, rng.choice(["0", "0", "1"])]]
+    ex = [["start", "", "", "", rng.randrange(6), rng.choice(["0", "0", "1"])]]     # n = run options: colour + 2 * verbosity
     run_ignored = ex[0][5] == "1"
     last = None
     for _ in range(rng.randint(0, max_groups)):
@@ -143,7 +146,7 @@ def long_exec(rng):
     whatever buffering the writer uses) in every field: name, group, file path, failure message, printed text"""
     def lstr(forbid=(122,)):
         return rstr(rng, 100, 400, special=rng.choice([0.01, 0.03, 0.1]), forbid=forbid)
-    ex = [["start", "", "", "", 0, "0"], ["group", hx(lstr()), "", "", 0, ""]]
+    ex = [["start", "", "", "", rng.randrange(6), "0"], ["group", hx(lstr()), "", "", 0, ""]]
     for _ in range(rng.choice([1, 2])):
         tfile = lstr()
         ex.append(["test", hx(lstr()), hx(tfile), "", 12, "n"])
@@ -154,6 +157,36 @@ def long_exec(rng):
     return ex
 
 
+SWEEP_LENGTHS = [1000, 2000, 3000, 4000, 5000, 8000, 16000, 40000]
+
+
+def dense(rng, n, phase, gap=2):
+    """n bytes in which characters that need escaping are as dense as they get: `phase' letters, then a special character
+    followed by 0..gap letters, again and again - escape pairs begin at every offset of the written value, so wherever a writer
+    cuts, pads or re-buffers a value, a pair straddles that place in some value"""
+    out = [rng.randint(97, 121) for _ in range(phase)]
+    while len(out) < n:
+        out.append(rng.choice(SPECIALS))
+        out += [rng.randint(97, 121) for _ in range(rng.randint(0, gap))]
+    return out[:n]
+
+
+def sweep_execs(rng, lengths, name_limit):
+    """length sweep: for every length n (geometric, 1 000 .. 40 000 bytes) one run whose failure message is n bytes dense in
+    characters that need escaping and whose group name, test name, source path and failure path are (up to name_limit) that long
+    as well.  No length is special to the check: a writer that limits, truncates or chunks a value anywhere in this range shows up"""
+    out = []
+    for n in lengths:
+        m = min(n, name_limit)
+        tfile = dense(rng, m, rng.randrange(3))
+        out.append([["start", "", "", "", rng.randrange(6), "0"], ["group", hx(dense(rng, m, rng.randrange(3))), "", "", 0, ""],
+                    ["test", hx(dense(rng, m, rng.randrange(3))), hx(tfile), "", 12, "n"],
+                    ["fail", hx(tfile), "", hx(dense(rng, n, rng.randrange(3))), 15, ""],
+                    ["fail", hx(dense(rng, m, rng.randrange(3))), "", hx(rstr(rng, n, n, special=0.02)), 3, ""],
+                    ["endtest", "", "", "", 0, ""], ["endgroup", "", "", "", 0, ""], ["end", "", "", "", 0, ""]])
+    return out
+
+
 EDGE_VALUES = [[]] + [[c] for c in SPECIALS] + [[97], [32]]
 
 
@@ -161,7 +194,8 @@ def edge_execs():
     """boundary sweep: a run of three groups (the middle one carries the values under test, the outer ones are ordinary, so that
     whatever the reporter keeps from one group or test to the next is set before and needed after) in which ONE kind of value at a
     time - group name, test name, test path, failure path, failure message, printed text - is the empty string or a single
-    character (each special character, a letter, a blank), for normal and ignored tests, with and without run-ignored mode."""
+    character (each special character, a letter, a blank), for normal and ignored tests, with and without run-ignored mode; the
+    run options (colour, verbosity) rotate through their six combinations from one run of the sweep to the next."""
     A, B, F, M = [65], [66], [102, 46, 99], [109, 115, 103]
     out = []
     for field in ("group", "name", "file", "ffile", "msg", "text"):
@@ -173,7 +207,7 @@ def edge_execs():
                     if kind == "i" and ri == "0" and field in ("ffile", "msg", "text"):
                         continue        # an ignored test that is not run has no failures or prints: nothing new to sweep
                     body = kind == "n" or ri == "1"
-                    ex = [["start", "", "", "", 0, ri],
+                    ex = [["start", "", "", "", len(out) % 6, ri],
                           ["group", hx(A), "", "", 0, ""], ["test", hx([112]), hx(F), "", 3, "n"], ["endtest", "", "", "", 0, ""],
                           ["endgroup", "", "", "", 0, ""],
                           ["group", hx(val["group"]), "", "", 0, ""],
@@ -254,9 +288,12 @@ def run(ctx):
     # ---- leg 1: the reporter design has the property (exhaustive over small runs; escaping theorem over all short strings)
     # names always range over the empty string as well; "structure" spends its size on the run (2 groups x 2 tests), "strings" on the values
     mcs = [("structure", {"na": "39", "nl": 1, "fa": "102", "fl": 1, "fm": 1, "ma": "93", "ml": 1, "lines": "3", "mg": 2, "mt": 2,
-                          "mf": 1 if quick else 2, "mp": 0, "el": 4 if quick else 5}),
+                          "mf": 1 if quick else 2, "mp": 0, "el": 4 if quick else 5, "opts": "Plain"}),
            ("strings", {"na": "97, 39", "nl": 1 if quick else 2, "fa": "102, 124", "fl": 1 if quick else 2, "fm": 0, "ma": "93, 10", "ml": 1,
-                        "lines": "3, 12", "mg": 1, "mt": 1, "mf": 1, "mp": 1, "el": 2})]
+                        "lines": "3, 12", "mg": 1, "mt": 1, "mf": 1, "mp": 1, "el": 2, "opts": "Plain"}),
+           # every combination of the run options that reach a reporter (colour, three verbosity levels)
+           ("options", {"na": "39", "nl": 1, "fa": "102", "fl": 1, "fm": 1, "ma": "93", "ml": 1, "lines": "3", "mg": 1 if quick else 2, "mt": 2,
+                        "mf": 1, "mp": 1, "el": 2, "opts": "All"})]
     ctx.notes["model"] = []
     for lab, c in mcs:
         mc = ctx.write_cfg("MC_TeamCity_" + lab, MC % c)
@@ -270,13 +307,16 @@ def run(ctx):
     # empty string wherever fm / ml allow it
     gens = [
         ("bfs1", {"na": "39" if quick else "97, 39", "nl": 1, "fa": "93" if quick else "102, 93", "fl": 1, "fm": 0, "ma": "124", "ml": 1,
-                  "lines": "3, 12", "mg": 1, "mt": 1, "mf": 1, "mp": 1, "D": 12}, None, None),
+                  "lines": "3, 12", "mg": 1, "mt": 1, "mf": 1, "mp": 1, "D": 12, "opts": "Plain"}, None, None),
+        # the run options (colour on / off x quiet / verbose / very verbose) are part of every run: all six, exhaustively on one group
+        ("bfs-options", {"na": "39", "nl": 1, "fa": "93", "fl": 1, "fm": 1, "ma": "124", "ml": 1, "lines": "3", "mg": 1, "mt": 1 if quick else 2,
+                         "mf": 1, "mp": 1, "D": 14, "opts": "All"}, None, None),
         ("bfs2", {"na": "39", "nl": 1, "fa": "93", "fl": 1, "fm": 1, "ma": "124", "ml": 0, "lines": "3", "mg": 2, "mt": 1 if quick else 2,
-                  "mf": 1, "mp": 0, "D": 24}, None, None),
+                  "mf": 1, "mp": 0, "D": 24, "opts": "Plain"}, None, None),
         ("bfs3", {"na": "39", "nl": 1, "fa": "93", "fl": 1, "fm": 1, "ma": "124", "ml": 0, "lines": "3", "mg": 1, "mt": 3 if quick else 4,
-                  "mf": 1, "mp": 0, "D": 24}, None, None),
+                  "mf": 1, "mp": 0, "D": 24, "opts": "Plain"}, None, None),
         ("sim", {"na": "97, 39, 124", "nl": 2, "fa": "102, 91", "fl": 2, "fm": 0, "ma": "109, 93, 10, 13", "ml": 2, "lines": "0, 12",
-                 "mg": 6, "mt": 4, "mf": 3, "mp": 1, "D": 40}, 6 if quick else 60, 60),
+                 "mg": 6, "mt": 4, "mf": 3, "mp": 1, "D": 40, "opts": "All"}, 6 if quick else 60, 60),
     ]
     for lab, c, sim, depth in gens:
         gcfg = ctx.write_cfg("Gen_TeamCity_" + lab, GEN % c)
@@ -314,15 +354,25 @@ def run(ctx):
     ctx.evaluations += sum(len(e) for e in execs)
     for e in execs:
         nontriv.add(json.dumps(e)[:400])
+    # ... and no bound on the length is part of the statement: a geometric sweep of lengths up to 40 000 bytes
+    execs = sweep_execs(ctx.rng, SWEEP_LENGTHS, 2000) if quick else [e for _ in range(3) for e in sweep_execs(ctx.rng, SWEEP_LENGTHS, 40000)]
+    conform(ctx, "length-sweep", execs, run_harness, "Trace_TeamCity", tcfg, pcfg, key_fn, tlc_timeout=1500, heap="8g")
+    ctx.evaluations += sum(len(e) for e in execs)
+    for e in execs:
+        nontriv.add(json.dumps(e)[:400])
     return ctx.finish(
         rule="executions = complete runs (registry callbacks start..end) generated by TLC from TeamCity.tla (exhaustive for 1 group x 1 test and "
-             "2 groups x 2-3 tests over small alphabets that always contain the empty string, simulation up to 6 groups), a boundary sweep (each kind of "
-             "value empty / one character) plus seeded random runs of up to 10/30 groups, each executed by "
+             "2 groups x 2-3 tests over small alphabets that always contain the empty string, all 6 combinations of the run options colour x "
+             "verbosity exhaustively on 1 group, simulation up to 6 groups), a boundary sweep (each kind of "
+             "value empty / one character), a length sweep (values of 1 000 .. 40 000 bytes dense in characters that need escaping) plus seeded "
+             "random runs of up to 10/30 groups with random run options, each executed by "
              "the real TestRegistry on the real TeamCityTestOutput; the captured bytes are decoded by tools/teamcity_decode.py and the per-callback "
              "log is validated by TLC; distinct = distinct scripts; non-trivial = has a failure, an ignored or filtered-out test, or a name that needs escaping",
         distinct_nontrivial=len(nontriv), exhaustive=False,
         assumptions=["names, paths, messages and printed texts are byte strings (the empty string and one-character strings included, in TLC-generated runs, "
                      "the boundary sweep and the random driver) over printable ASCII plus CR and LF; test names contain no 'z' (the harness filters on it)",
                      "text printed by tests does not itself contain ##teamcity[",
+                     "the run options that reach the reporter are colour on/off and the three verbosity levels; the free text around the messages "
+                     "(progress, very-verbose chatter, coloured summary) is not checked",
                      "the wording of the location text is not specified, only that it ends with <failure file>:<line> and names <test file>:<line> when that differs",
                      "the duration value is not checked beyond being safely escaped"])
